@@ -9,7 +9,7 @@ ID = "C16"
 LEVEL = "exploration"
 TECHNIQUE = "model-based generation of selection histories (every allowed plate may be picked next) with an independent policy model and per-step invariants"
 RULE = (
-    "k in 1..4; 1..5 samples with 0..6 single-sample unobserved plates each (counts straddling k) and 0..2 observed plates, plate names drawn so that the plate ids of "
+    "k in 1..4; 1..5 (a third of the cases 9..14) samples with 0..6 single-sample unobserved plates each (counts straddling k) and 0..2 observed plates, plate names drawn so that the plate ids of "
     "different samples interleave; a history "
     "of up to 3k selections where each step picks ANY plate of the currently allowed set (index drawn by Hypothesis), alternately by "
     "calling filter_eligible_plates directly and through select_next_plate (batch ids as list, tuple, set, frozenset, dict keys or numpy integers) with scores making the pick the unique minimum (disallowed candidates score better still) or with all scored plates exactly tied (the selection must stay within the allowed set and the history follows it); in half the cases every selected plate is revealed in place before the next selection of the batch, as the retrospective pipeline does; plus screens "
@@ -30,7 +30,7 @@ def budgets(tier):
 @st.composite
 def _case(draw):
     k = draw(st.integers(1, 4))
-    ns = draw(st.integers(1, 5))
+    ns = draw(st.one_of(st.integers(1, 5), st.integers(1, 5), st.integers(9, 14)))  # (hash-ordered containers of small ints stop being sorted from 9 on)
     samples = []
     for _ in range(ns):
         u = draw(st.one_of(st.integers(0, 6), st.sampled_from([k - 1, k, k + 1, 2 * k]))) if True else 0
